@@ -161,7 +161,24 @@ pub fn gen_world_sub_p(rng: &mut Rng, o: Opts, tags: &mut Vec<&'static str>, one
 }
 
 fn gen_world_base(rng: &mut Rng, mut o: Opts, tags: &mut Vec<&'static str>) -> (World, Facts) {
-    match rng.below(5) {
+    match rng.below(6) {
+        5 => {
+            // the JAX text files (hp.obo + gene file + phenotype.hpoa) through from_standard(_transitive)
+            o.flags = true;
+            o.long_names = false;
+            if rng.chance(7, 8) {
+                o.roots_eighths = 8;
+                o.min_terms = o.min_terms.max(2);
+            }
+            let mut f = gen::gen_facts(rng, o);
+            f.genes.retain(|r| !r.terms.is_empty());
+            f.omim.retain(|r| !r.terms.is_empty());
+            f.orpha.retain(|r| !r.terms.is_empty());
+            let transitive = rng.chance(1, 2);
+            tags.push("jax");
+            let genes = if transitive { crate::jax::render_phenotype_to_genes(rng, &f) } else { crate::jax::render_genes_to_phenotype(rng, &f) };
+            (World::Jax { transitive, obo: crate::jax::render_obo(rng, &f), genes, hpoa: crate::jax::render_hpoa(rng, &f) }, f)
+        }
         0 | 1 => {
             o.flags = false;
             let f = gen::gen_facts(rng, o);
